@@ -41,10 +41,113 @@ func nfAlt(parts []string) string {
 			flat = append(flat, p)
 		}
 	}
+	// neighbouring one-character terminals of a choice denote the union of their sets, whatever
+	// their order and however the set is split into characters and ranges
+	var merged []string
+	for i := 0; i < len(flat); {
+		j := i
+		var iv [][2]rune
+		for j < len(flat) {
+			ivs, ok := nfIntervals(flat[j])
+			if !ok {
+				break
+			}
+			iv = append(iv, ivs...)
+			j++
+		}
+		if j-i < 2 {
+			merged = append(merged, flat[i])
+			i++
+			continue
+		}
+		sort.Slice(iv, func(a, b int) bool { return iv[a][0] < iv[b][0] })
+		var out [][2]rune
+		for _, x := range iv {
+			if n := len(out); n > 0 && x[0] <= out[n-1][1]+1 {
+				if x[1] > out[n-1][1] {
+					out[n-1][1] = x[1]
+				}
+				continue
+			}
+			out = append(out, x)
+		}
+		switch len(out) {
+		case 0:
+			merged = append(merged, "set[]")
+		case 1:
+			merged = append(merged, nfRange(out[0][0], out[0][1]))
+		default:
+			var ps []string
+			for _, x := range out {
+				ps = append(ps, nfRange(x[0], x[1]))
+			}
+			merged = append(merged, "set["+strings.Join(ps, " ")+"]")
+		}
+		i = j
+	}
+	flat = merged
 	if len(flat) == 1 {
 		return flat[0]
 	}
 	return "alt[" + strings.Join(flat, " ") + "]"
+}
+
+// nfIntervals: the code points a char(…), range(…,…) or set[…] normal form denotes.
+func nfIntervals(p string) ([][2]rune, bool) {
+	if strings.HasPrefix(p, "set[") && strings.HasSuffix(p, "]") {
+		var out [][2]rune
+		for _, q := range splitTop(p[4 : len(p)-1]) {
+			lo, hi, ok := nfTerm(q)
+			if !ok {
+				return nil, false
+			}
+			if lo <= hi {
+				out = append(out, [2]rune{lo, hi})
+			}
+		}
+		return out, true
+	}
+	lo, hi, ok := nfTerm(p)
+	if !ok {
+		return nil, false
+	}
+	if lo > hi {
+		return nil, true
+	}
+	return [][2]rune{{lo, hi}}, true
+}
+
+// nfTerm reads a char(…) or range(…,…) normal form back.
+func nfTerm(p string) (lo, hi rune, ok bool) {
+	unq := func(q string) (rune, bool) {
+		s, err := strconv.Unquote(q)
+		if err != nil {
+			return 0, false
+		}
+		rs := []rune(s)
+		if len(rs) != 1 {
+			return 0, false
+		}
+		return rs[0], true
+	}
+	switch {
+	case strings.HasPrefix(p, "char(") && strings.HasSuffix(p, ")"):
+		r, ok := unq(p[5 : len(p)-1])
+		return r, r, ok
+	case strings.HasPrefix(p, "range(") && strings.HasSuffix(p, ")"):
+		body := p[6 : len(p)-1]
+		// 'x','y' — the separating comma is the one after the first closing quote
+		for i := 2; i < len(body)-1; i++ {
+			if body[i] == ',' && body[i-1] == '\'' && body[i+1] == '\'' {
+				a, ok1 := unq(body[:i])
+				b, ok2 := unq(body[i+1:])
+				if ok1 && ok2 {
+					return a, b, true
+				}
+			}
+		}
+	}
+	return 0, 0, false
 }
 
 // splitTop splits "a b[c d] e" at top-level spaces.
@@ -301,7 +404,7 @@ func readerBuild(text string) (norm string, ok bool, unspecified bool) {
 // exprCorpus: expression texts covering the documented constructs.
 func exprCorpus() []string {
 	prim := []string{
-		"a", "Ab_1", "'x'", "'ab'", "'aB1'", `"a"`, `"aB1"`, `"1"`, "''", `""`, "[a]", "[a-c]", "[ab-dz]", "[^a]", "[^a-c]", "[[a]]", "[[a-c]]", "[[A-C]]", "[[^a]]", "[[^a-cx]]", "[]", "[[]]", "[^]", ".", "{x}", "{ f(x, {y}) }", "<a>", "< 'a' 'b' >", "( a )", "(a / b)", "(a b)",
+		"a", "Ab_1", "'x'", "'ab'", "'aB1'", `"a"`, `"aB1"`, `"1"`, "''", `""`, "[a]", "[a-c]", "[ab-dz]", "[^a]", "[^a-c]", "[[a]]", "[[a-c]]", "[[A-C]]", "[[0-9]]", "[[0-F]]", "[[A-f]]", "[[_-z]]", "[[a-cA-C]]", "[[0-9a-fA-F]]", "[[!-a]]", "[[Z-a]]", "[[1]]", "[[_]]", "[a-cb-d]", "[abc]", "[a-a]", "[[^a]]", "[[^a-cx]]", "[]", "[[]]", "[^]", ".", "{x}", "{ f(x, {y}) }", "<a>", "< 'a' 'b' >", "( a )", "(a / b)", "(a b)",
 		`'\n'`, `'\t'`, `'\\'`, `'\''`, `"\""`, `'\a\b\e\f\r\v'`, `[\]]`, `[\[\-]`, `[\\]`, `'\101'`, `'\7'`, `'\18'`, `'\0x41'`, `'\0x1F600'`, `'\0X41'`, `'\0x2190'`, `[\0x61-\0x63]`, `[\101-\103]`, `"\N"`, `'\400'`, `'-'`, `[-a]`, `[a-]`, `[a\-c]`, `'世'`, `[世-界]`, `"é"`,
 	}
 	var out []string
